@@ -31,7 +31,7 @@ def main():
                     out[key] = None       # two different definitions under one key: leave the names alone
                 else:
                     out.setdefault(key, ent)
-    out = {k: v for k, v in out.items() if v}
+    out = {k: v for k, v in out.items() if v is not None}
     with open(os.path.join(V, 'support', 'pinned_names.json'), 'w') as fh:
         json.dump(out, fh, indent=0, sort_keys=True)
     print('%d functions' % len(out))
